@@ -119,6 +119,14 @@ def obligations_step(run, prop, tables, tables_err):
         else:
             res['discharged'] += 1
     res['theorems'] = [[n, seen.get(n)] for n in names]
+    if run.tier == 'thorough' and ok:
+        # independent re-check of the compiled property module (and what it imports)
+        import subprocess
+        p = subprocess.run(['lake', 'env', 'leanchecker', 'DiffxVerif.Properties.' + prop.PID], cwd=common.LEAN,
+                           stdout=subprocess.PIPE, stderr=subprocess.STDOUT)
+        res['leanchecker'] = {'exit': p.returncode, 'output_tail': p.stdout.decode()[-300:]}
+        if p.returncode != 0:
+            res['broken'].append('leanchecker rejects DiffxVerif.Properties.%s' % prop.PID)
     hits = common.grep_forbidden()
     if hits:
         res['broken'].append('forbidden constructs in Lean sources: %s' % hits[:5])
@@ -241,6 +249,7 @@ def check(run, prop):
         'known_findings_hit': {k: len(v) for k, v in listed.items()},
         'fingerprints': (tables or {}).get('fingerprints', {}),
         'generated_tables_changed_this_run': ob['generated_changed'],
+        'leanchecker': ob.get('leanchecker'),
     }
     ev = {
         'property_id': pid, 'tier': run.tier, 'seed': run.seed, 'level': 'proof',
